@@ -653,6 +653,108 @@ pub fn run(args: &Args) -> i32 {
             _ => {}
         }
     }
+    // (c) index size classes: the behaviours above have small diagonals, so the lattice index stays small.  The
+    //     elimination code switches arithmetic by the size of h (i128 / 256-bit paths around 2^63 / N), so a few
+    //     presentations are built with h in chosen bit classes: a diagonal of 5 (8) moderate entries times ones,
+    //     embedded in 12..16 generators and mixed by elementary operations (same bookkeeping as UniMat.tla).
+    {
+        let classes: &[(f64, f64, usize)] = &[(40.0, 41.0, 5), (61.5, 62.3, 5), (62.35, 62.98, 5), (63.02, 63.9, 5), (64.0, 66.0, 5), (100.0, 102.0, 8)];
+        let per = if thorough { 6 } else { 2 };
+        let mut ci = 0;
+        for &(lo, hi, nd) in classes {
+            // the class just below 2^63 is where a block of 8 products of residues can exceed an i128: more instances
+            let per = if lo > 62.3 && hi < 63.0 { 5 * per } else { per };
+            for _ in 0..per {
+                // nd - 1 random entries of about (lo / nd) bits, the last one completes the product into [2^lo, 2^hi)
+                let each = lo / nd as f64;
+                let (diag, _h) = loop {
+                    let mut d: Vec<i64> = (0..nd - 1).map(|_| { let b = 2f64.powf(each); rng.gen_range((b * 0.7) as i64..(b * 1.4) as i64).max(2) }).collect();
+                    let prod: f64 = d.iter().map(|&x| x as f64).product();
+                    let target = 2f64.powf(rng.gen_range(lo..hi));
+                    let last = (target / prod).round() as i64;
+                    if last < 2 || last >= (1 << 30) {
+                        continue;
+                    }
+                    d.push(last);
+                    let mut h: u128 = 1;
+                    for &x in &d {
+                        h *= x as u128;
+                    }
+                    let l2 = (h as f64).log2();
+                    if l2 >= lo && l2 < hi {
+                        break (d, h);
+                    }
+                };
+                let k = diag.len();
+                let m: Vec<Vec<i64>> = (0..k).map(|i| (0..k).map(|j| if i == j { diag[i] } else { 0 }).collect()).collect();
+                let base = Case { id: format!("h{}", ci), variant: "base", k, m, x: vec![], xc: Some(vec![]), sign: 1,
+                                  factors: diag.iter().map(|&x| x as i128).collect(), diag: diag.clone(), grp: true,
+                                  src: json!({"native": "hclass", "lo": lo, "hi": hi}) };
+                let kk = if lo > 62.3 && hi < 63.0 { 16 } else { [12usize, 16][ci % 2] };
+                let e = extend(&base, &mut rng, kk, 3 * kk, 40000, "e");
+                ev_lattice(&e, &mut rng, &mut out, ci, true);
+                ev_snf(&e, &mut rng, &mut out, ci + 1);
+                ci += 1;
+            }
+        }
+    }
+    // (d) random relation lattices: 16 x 16 matrices with small entries whose determinant (computed here by a
+    //     fraction-free elimination over 512-bit integers; re-checked by the specification modulo two primes, a
+    //     Witness) falls in a chosen bit class.  Their quotient is (nearly) cyclic, so after triangularisation most
+    //     diagonal entries are 1 and the residues are as large as h - the regime of class group computations.
+    {
+        use bnum::types::I512;
+        let bareiss = |m: &Vec<Vec<i64>>| -> I512 {
+            let n = m.len();
+            let mut a: Vec<Vec<I512>> = m.iter().map(|r| r.iter().map(|&x| I512::from(x)).collect()).collect();
+            let (mut neg, mut prev) = (false, I512::ONE);
+            for k in 0..n {
+                if a[k][k] == I512::ZERO {
+                    let Some(r) = (k + 1..n).find(|&r| a[r][k] != I512::ZERO) else { return I512::ZERO };
+                    a.swap(k, r);
+                    neg = !neg;
+                }
+                for i in k + 1..n {
+                    for j in k + 1..n {
+                        a[i][j] = (a[i][j] * a[k][k] - a[i][k] * a[k][j]) / prev;
+                    }
+                    a[i][k] = I512::ZERO;
+                }
+                prev = a[k][k];
+            }
+            if neg { -a[n - 1][n - 1] } else { a[n - 1][n - 1] }
+        };
+        let classes: &[(f64, f64, usize)] = &[(62.4, 63.0, if thorough { 30 } else { 10 }), (40.0, 44.0, 2), (63.0, 64.0, 2), (70.0, 75.0, 2)];
+        let mut ci = 0;
+        for &(lo, hi, cnt) in classes {
+            let mut got = 0;
+            let mut tries = 0;
+            // entry range tuned to the class: log2 |det| ~ 22 + 16 log2(sigma)
+            let r: i64 = (2f64.powf((lo + 0.3 - 22.0) / 16.0) * 1.75).round().max(1.0) as i64;
+            while got < cnt && tries < 20000 {
+                tries += 1;
+                let m: Vec<Vec<i64>> = (0..16).map(|_| (0..16).map(|_| rng.gen_range(-r..=r)).collect()).collect();
+                let d = bareiss(&m);
+                if d == I512::ZERO {
+                    continue;
+                }
+                let mag = d.unsigned_abs();
+                let l2 = mag.bits() as f64 - 1.0 + ((mag >> (mag.bits().saturating_sub(53))).to_string().parse::<f64>().unwrap()
+                    / 2f64.powi(mag.bits().min(53) as i32 - 1)).log2();
+                if !(l2 >= lo && l2 < hi) || mag.bits() > 100 {
+                    continue;
+                }
+                let h: i128 = mag.to_string().parse::<i128>().unwrap();
+                let c = Case { id: format!("r{}", ci), variant: "base", k: 16, m, x: vec![], xc: Some(vec![]),
+                               sign: if d.is_negative() { -1 } else { 1 }, factors: vec![h], diag: vec![], grp: false,
+                               src: json!({"native": "randlattice", "lo": lo, "hi": hi}) };
+                ev_lattice(&c, &mut rng, &mut out, ci, true);
+                ev_snf(&c, &mut rng, &mut out, ci + 1);
+                got += 1;
+                ci += 1;
+            }
+        }
+    }
     // Berlekamp-Massey on sequences with a known recurrence
     let reps = if thorough { 3 } else { 1 };
     let mut idx = 0;
